@@ -71,6 +71,15 @@ CHECKS["C11"] = dict(
     engine="tlc+replay",
 )
 
+CHECKS["C17"] = dict(
+    category="model_checking",
+    text="Decode.tla transcribes the loader's encoding cascade and BOM strip as a decision procedure over byte sequences. TLC proves within the bounds that every encoding of every 1..4-character text over representative code points (all UTF-8 lengths, BMP and non-BMP, every length residue mod 4) decodes back to the text, i.e. the heuristic design is model-checked; all 41k byte strings up to length 4 over a branch-separating byte alphabet are compared between the specification and the real decode_raw_bytes (hook), every round-trip case is embedded in a real document, encoded independently and loaded from a file (model equal to loading the string), and seeded random byte files go through load() without a panic.",
+    design_ref="DESIGN.md §4.9, §6 C17",
+    note="Representative code points per class; ASCII first character (precondition). The byte-level fuzz part is exploration, not model checking. Trusts TLC, Rust's std encoders used to build the files, and the hook (a 3-line pass-through).",
+    technique="TLA+ spec (Decode.tla) model-checked with TLC; TLC-generated byte strings and texts replayed into the real decoder/loader",
+    engine="tlc+replay",
+)
+
 PENDING = "check not built yet in this round; planned per DESIGN.md §6 (no claim made until the TLA+ module and its binding exist)"
 NOT_APPLICABLE = {}
 
